@@ -19,9 +19,33 @@ type c15File struct {
 }
 
 type c15Project struct {
-	Name    string // directory name of the repository inside the scratch directory
+	Name    string // directory name of the repository
 	Files   []c15File
 	BaseCfg string // configuration content without `paths` ("" = none)
+
+	// Layout: how the repository is marked and where it lives.
+	//  0: <scratch>/<Name> with a .git DIRECTORY (ordinary clone)
+	//  1: <scratch>/<Name> whose .git is a regular FILE `gitdir: ...` (linked worktree)
+	//  2: <scratch>/<OuterName>/vendor/<Name> whose .git is a FILE (submodule) inside an ordinary outer clone
+	//  3: as 2 but the inner repository has a .git directory (nested clone)
+	// The outer clone has its own workflow and its own, different configuration.
+	Layout       int
+	OuterName    string
+	OuterCfg     string     // content of <outer>/.github/actionlint.yaml ("" = none)
+	OuterEntries []c15Entry // the `paths` entries in OuterCfg (nil when OuterCfg is broken or absent)
+	OuterBroken  bool       // OuterCfg is not a valid configuration; it must never be read
+}
+
+var c15LayoutNames = []string{"git-dir", "git-file-standalone", "git-file-nested-in-outer-clone", "git-dir-nested-in-outer-clone"}
+
+func (p *c15Project) nested() bool { return p.Layout >= 2 }
+
+// relRoot is the repository root relative to the scratch directory.
+func (p *c15Project) relRoot() string {
+	if p.nested() {
+		return p.OuterName + "/vendor/" + p.Name
+	}
+	return p.Name
 }
 
 var c15ProjNames = []string{"proj", "my-repo", "r", "Repo.x", "my repo", "workflows", "a.yml"}
@@ -173,6 +197,45 @@ func c15GenProject(r *Rand) *c15Project {
 	case 1:
 		p.BaseCfg = "config-variables: null\nself-hosted-runner:\n  labels: []\n"
 	}
+	switch x := r.Intn(20); {
+	case x < 11:
+		p.Layout = 0
+	case x < 15:
+		p.Layout = 1
+	case x < 19:
+		p.Layout = 2
+	default:
+		p.Layout = 3
+	}
+	if p.nested() {
+		p.OuterName = r.Pick([]string{"outer", "mono-repo", "Outer.clone"})
+		switch x := r.Intn(6); {
+		case x == 0:
+			// no configuration in the outer clone
+		case x == 1:
+			p.OuterBroken = true
+			p.OuterCfg = r.Pick([]string{"paths: {\n", "paths:\n  '**':\n    ignore:\n      - '('\n", "paths:\n  '[':\n    ignore: []\n"})
+		default:
+			n := r.Range(1, 2)
+			seen := map[string]bool{}
+			for i := 0; i < n; i++ {
+				g := r.Pick([]string{"**", "vendor/**", "**/*.{yml,yaml}", "**/.github/workflows/**", "vendor/" + p.Name + "/.github/workflows/*.yml", "vendor/*/.github/**"})
+				if seen[g] {
+					continue
+				}
+				seen[g] = true
+				pat := r.Pick(c15StaticAll)
+				if r.Chance(1, 3) {
+					pat = r.Pick(c15StaticSome)
+				}
+				p.OuterEntries = append(p.OuterEntries, c15Entry{Glob: g, Pats: []string{pat}})
+			}
+			p.OuterCfg = c15Config(&c15Project{}, &c15Filter{Entries: p.OuterEntries})
+			if r.Bool() {
+				p.OuterCfg = "self-hosted-runner:\n  labels: [outer-only-label]\n" + p.OuterCfg
+			}
+		}
+	}
 	return p
 }
 
@@ -261,6 +324,86 @@ func c15PatFrom(r *Rand, msgs []string) (string, string) {
 		return regexp.QuoteMeta(msg[a:e]), "substring"
 	}
 	return regexp.QuoteMeta(msg), "whole-message"
+}
+
+// c15FlipCase changes the letter case of a word so that it matches the original only
+// case-insensitively ("" when the word has no ASCII letter).
+func c15FlipCase(w string) string {
+	up := strings.ToUpper(w)
+	if up != w {
+		return up
+	}
+	lo := strings.ToLower(w)
+	if lo != w {
+		return lo
+	}
+	return ""
+}
+
+// c15GenPatSet builds a LIST of patterns whose members interact when an implementation does not
+// treat them one by one (joined into one alternation, only the first / last used, flags shared):
+// inline flags in a non-last pattern followed by a pattern that matches a message only under that
+// flag, scoped flag groups, anchors in every pattern, alternations inside a pattern, patterns with
+// an empty alternative, empty patterns, equal group names in two patterns. The reference stays:
+// compile each pattern alone; a diagnostic is dropped iff some applicable pattern matches.
+func c15GenPatSet(c *Case, msgs []string) []string {
+	r := c.R
+	none := r.Pick([]string{"zzz-no-such-text", "nomatchword", "qqq[0-9]{3}qqq"})
+	none2 := r.Pick([]string{"yyy-neither", "^###", "@@@$"})
+	word, msg := "", ""
+	for try := 0; try < 8 && len(msgs) > 0 && word == ""; try++ {
+		msg = msgs[r.Intn(len(msgs))]
+		if ws := c15Words(msg); len(ws) > 0 {
+			w := r.Pick(ws)
+			if c15FlipCase(w) != "" {
+				word = w
+			}
+		}
+	}
+	if word == "" {
+		word, msg = "label", "label is unknown"
+	}
+	flipped := regexp.QuoteMeta(c15FlipCase(word))
+	flippedFull := "^" + regexp.QuoteMeta(c15FlipCase(msg)) + "$"
+	var set []string
+	class := ""
+	switch r.Intn(14) {
+	case 0:
+		set, class = []string{"(?i)" + none, flipped}, "set-flag-i-then-case-flipped"
+	case 1:
+		set, class = []string{"(?i)" + none, none2, flipped}, "set-flag-i-then-two"
+	case 2:
+		set, class = []string{"(?i:" + none + ")", flipped}, "set-scoped-flag-group"
+	case 3:
+		set, class = []string{flipped, "(?i)" + none}, "set-flag-in-last"
+	case 4:
+		set, class = []string{"(?i)^" + none + "$", flippedFull}, "set-anchored-each"
+	case 5:
+		set, class = []string{none2 + "|(?i)" + none, flipped}, "set-flag-inside-alternation"
+	case 6:
+		set, class = []string{"(?s)" + none, "(?U)" + none2 + "+", "(?m)^" + none + "$", regexp.QuoteMeta(word) + ".+?$"}, "set-flags-s-U-m"
+	case 7:
+		set, class = []string{r.Pick([]string{"|" + none, none + "|", none + "||" + none2}), flipped}, "set-empty-alternative"
+	case 8:
+		set, class = []string{none, "", flipped}, "set-empty-pattern"
+	case 9:
+		set, class = []string{"(?P<w>" + none + ")", "(?P<w>" + regexp.QuoteMeta(word) + ")"}, "set-equal-group-names"
+	case 10:
+		set, class = []string{"(?i)" + regexp.QuoteMeta(word), "(?-i)" + flipped}, "set-flag-reset"
+	case 11:
+		set, class = []string{none, "(?i)" + none2, flipped, none}, "set-flag-in-the-middle"
+	case 12:
+		set, class = []string{"^" + regexp.QuoteMeta(word) + "|" + regexp.QuoteMeta(word) + "$", "^(?i)" + none, "^" + flipped, flipped + "$"}, "set-alternation-with-anchors"
+	case 13:
+		set, class = []string{"(?i)(?-i)" + none, "(?i)" + none + "(?-i)", flipped, "(?i:" + none + ")|" + flipped}, "set-flag-switched-off-again"
+	}
+	for _, p := range set {
+		if _, err := regexp.Compile(p); err != nil || strings.ContainsAny(p, "\r\n") {
+			return []string{c15GenPat(c, msgs), c15GenPat(c, msgs)}
+		}
+	}
+	c.SetAdd("pattern_set_classes", class)
+	return set
 }
 
 func c15GenPat(c *Case, msgs []string) string {
@@ -365,6 +508,10 @@ func c15GenFilter(c *Case, p *c15Project, kind string, msgs []string) *c15Filter
 			nCLI = r.Intn(2)
 		}
 	}
+	if nCLI > 0 && r.Chance(1, 4) {
+		f.CLI = append(f.CLI, c15GenPatSet(c, msgs)...)
+		nCLI = 0
+	}
 	for i := 0; i < nCLI; i++ {
 		f.CLI = append(f.CLI, c15GenPat(c, msgs))
 	}
@@ -381,6 +528,8 @@ func c15GenFilter(c *Case, p *c15Project, kind string, msgs []string) *c15Filter
 		e := c15Entry{Glob: g}
 		if r.Chance(1, 12) {
 			e.Form = r.Range(1, 3)
+		} else if r.Chance(1, 3) {
+			e.Pats = c15GenPatSet(c, msgs)
 		} else {
 			for k := r.Range(1, 3); k > 0; k-- {
 				e.Pats = append(e.Pats, c15GenPat(c, msgs))
@@ -431,10 +580,11 @@ const (
 	c15CwdWorkflows
 	c15CwdUnrelated
 	c15CwdDotGithub
+	c15CwdOuterRoot // root of the enclosing outer clone (nested layouts only)
 	c15NCwd
 )
 
-var c15CwdNames = []string{"root", "parent", "nested", "workflows-dir", "unrelated", "dot-github"}
+var c15CwdNames = []string{"root", "parent", "nested", "workflows-dir", "unrelated", "dot-github", "outer-root"}
 
 const (
 	c15SpRel = iota
@@ -456,12 +606,17 @@ type c15Inv struct {
 }
 
 // c15AllPairs lists the (cwd, spelling) pairs that make sense.
-func c15AllPairs() [][2]int {
+func c15AllPairs(nested bool) [][2]int {
 	var out [][2]int
 	for cw := 0; cw < c15NCwd; cw++ {
+		if cw == c15CwdOuterRoot && !nested {
+			continue
+		}
 		for sp := 0; sp < c15NSp; sp++ {
-			if sp == c15SpNoArgs && (cw == c15CwdParent || cw == c15CwdUnrelated) {
-				continue // no repository there: fatal error, see the fatal family
+			if sp == c15SpNoArgs && (cw == c15CwdParent || cw == c15CwdUnrelated || cw == c15CwdOuterRoot) {
+				// no repository there (fatal error, see the fatal family), or (nested layouts) the
+				// outer clone, whose own workflows are not the subject
+				continue
 			}
 			out = append(out, [2]int{cw, sp})
 		}
